@@ -91,7 +91,7 @@ def matches(tr, exp):
     return True
 
 
-KNOWN = {"scn_trace_types_name": "C02-trace_types", "scn_gen_closed": "C02-unwind-at-yield"}
+KNOWN = {"scn_trace_types_name": "C02-trace_types", "scn_gen_closed": "C02-unwind-at-yield", "scn_negative_cache": "C02-negative-cache"}
 
 
 def run(ctx):
@@ -128,6 +128,23 @@ def run(ctx):
             H.violation("monkeytype.tracing:CallTracer.handle_return", "failing-logger:%s:handed=%d:residue=%d" % (name, len(col.traces), residue),
                         "scenario %s with a failing logger: finished calls keep per-call state in the tracer / are handed over a wrong number of times" % name,
                         {"scenario": name, "logger": "log raises"}, {"handed_over": len(col.traces), "residue": residue}, {"handed_over": len(expected), "residue": 0})
+    # ---- two functions published by the same functools.wraps decorator: their wrappers share one code object
+    H.section("wrappers sharing a code object", "a module whose functions foo and bar are decorated by one functools.wraps decorator; only bar is called: nothing may be attributed to foo", "1 module")
+    import types as _types
+    src = ("import functools\n\ndef deco(f):\n    @functools.wraps(f)\n    def wrapper(*args, **kwargs):\n        return f(*args, **kwargs)\n    return wrapper\n\n"
+           "@deco\ndef foo(a):\n    return 1\n\n@deco\ndef bar(b):\n    return 's'\n")
+    m_ = _types.ModuleType("c02_shared_wrappers")
+    exec(compile(src, "<c02-shared-wrappers>", "exec"), m_.__dict__)
+    col = Collector()
+    with trace_calls(col, 0, lambda code: code.co_filename == "<c02-shared-wrappers>"):
+        # called from the module's own top-level code (as under `monkeytype run script.py`): the module namespace is among the callers' locals
+        exec(compile("bar(2)\n", "<c02-shared-wrappers-main>", "exec"), m_.__dict__)
+    to_foo = [describe(t) for t in col.traces if getattr(t.func, "__qualname__", "") == "foo"]
+    if not to_foo:
+        H.ok("shared-wrapper-code", sample={"logged": [describe(t) for t in col.traces]})
+    else:
+        H.violation("monkeytype.tracing:get_func", "C02-shared-wrapper-code|foo", "the call of bar's wrapper is attributed to foo's wrapper (the two closures share one code object; the lookup takes the first callable with that code)",
+                    {"called": "bar(2)"}, {"attributed_to_foo": to_foo, "logged": [describe(t) for t in col.traces]}, "no trace for foo")
     # ---- short-lived code: unresolvable code objects that are freed, then new resolvable functions (address reuse must not confuse the tracer's cache)
     rounds = 150
     H.section("short-lived code", "rounds of: an anonymous lambda compiled, called in place and discarded (unresolvable: not logged), then a freshly exec'd module-level function called once: "
